@@ -67,8 +67,8 @@ package filecache
 
 //@ func (c *FileCache) Open(name string) (file *os.File, err error)  property C14 C16
 //@   preserves c
-//@   requires @no-refcount-overflow forall f *os.File :: c.$lent[f] < (1 << 62)
-//@   requires c.hit < (1 << 62) && c.miss < (1 << 62)
+//@   local requires @no-refcount-overflow forall f *os.File :: c.$lent[f] < (1 << 62)
+//@   local requires c.hit < (1 << 62) && c.miss < (1 << 62)
 //@   modifies c.cache, c.ll, c.hit, c.miss, c.removed, mapof(c.cache), mapof(c.removed), heap("G:container/list.List."), heap("G:os.File.$open"), heap("F:~/store/filecache.entry.refs"), c.$lent
 //@   ghost at after call os.OpenFile#0: c.$lent = ite($r1 == nil, c.$lent[$r0 := c.$lent[$r0] + 1], c.$lent)
 //@   ghost at after call (*container/list.List).MoveToFront#0: c.$lent = c.$lent[ent(c, name).file := c.$lent[ent(c, name).file] + 1]
